@@ -15,7 +15,7 @@ class Derived:
         self.func = func
         self.is_source = is_source
         self.names = set(extra_seeds)        # local names that may alias (a part of) the tracked object
-        self.holders = set()                 # local containers that may hold a tracked part as an element
+        self.holders = {}                    # local containers that may hold a tracked part: chain -> {constant key text | None (any key)}
         changed = True
         while changed:
             changed = False
@@ -36,9 +36,8 @@ class Derived:
                     # container.append(derived) makes the container a holder
                     if any(self.derived(a) for a in n.args):
                         c = attr_chain(n.func.value)
-                        if c and c not in self.holders and not self.derived(n.func.value):
-                            self.holders.add(c)
-                            changed = True
+                        if c and not self.derived(n.func.value):
+                            changed |= self._add_holder(c, None)
 
     def _bind(self, t, value):
         ch = False
@@ -46,9 +45,12 @@ class Derived:
             if self.derived(value) and t.id not in self.names:
                 self.names.add(t.id)
                 ch = True
-            if isinstance(value, (ast.Dict, ast.List, ast.Tuple)) and any(self.derived(v) for v in ast.iter_child_nodes(value) if isinstance(v, ast.expr)) and t.id not in self.holders:
-                self.holders.add(t.id)
-                ch = True
+            if isinstance(value, ast.Dict):
+                for k, v in zip(value.keys, value.values):
+                    if self.derived(v):
+                        ch |= self._add_holder(t.id, unparse(k) if isinstance(k, ast.Constant) else None)
+            elif isinstance(value, (ast.List, ast.Tuple)) and any(self.derived(v) for v in value.elts):
+                ch |= self._add_holder(t.id, None)
         elif isinstance(t, (ast.Tuple, ast.List)):
             if isinstance(value, (ast.Tuple, ast.List)) and len(value.elts) == len(t.elts):
                 for a, b in zip(t.elts, value.elts):
@@ -61,18 +63,25 @@ class Derived:
         elif isinstance(t, ast.Subscript):
             # holder[k] = derived
             b = t
+            key = unparse(t.slice) if isinstance(t.slice, ast.Constant) and not isinstance(t.value, ast.Subscript) else None
             while isinstance(b, ast.Subscript):
                 b = b.value
             c = attr_chain(b)
-            if c and self.derived(value) and not self.derived(b) and c not in self.holders:
-                self.holders.add(c)
-                ch = True
+            if c and self.derived(value) and not self.derived(b):
+                ch |= self._add_holder(c, key)
         elif isinstance(t, ast.Attribute):
             c = attr_chain(t)
             if c and self.derived(value) and c not in self.names:
                 self.names.add(c)
                 ch = True
         return ch
+
+    def _add_holder(self, chain, key):
+        ks = self.holders.setdefault(chain, set())
+        if key in ks or None in ks:
+            return False
+        ks.add(key)
+        return True
 
     def derived(self, e):
         """May expression e denote (a part of) the tracked object?"""
@@ -90,7 +99,7 @@ class Derived:
         if isinstance(e, ast.Subscript):
             if isinstance(e.slice, ast.Slice):
                 return self.derived(e.value)
-            return self.derived(e.value) or self._holder(e.value)
+            return self.derived(e.value) or self._holder(e.value, unparse(e.slice) if isinstance(e.slice, ast.Constant) else None)
         if isinstance(e, ast.Call):
             fn = unparse(e.func)
             if fn in FRESH_CALLS:
@@ -108,9 +117,14 @@ class Derived:
             return any(self.derived(v) for v in e.values)
         return False
 
-    def _holder(self, e):
+    def _holder(self, e, key='*'):
         c = attr_chain(e)
-        return c is not None and c in self.holders
+        if c is None or c not in self.holders:
+            return False
+        ks = self.holders[c]
+        if key == '*' or key is None or None in ks:
+            return True
+        return key in ks
 
     def mutations(self):
         """[(node, description)] sites in this function that mutate a derived object."""
